@@ -69,6 +69,17 @@ class Expected:
                           "mandatory_blank": not Q.lines_of(chars, False)})
 
 
+def source_has_arrow(adoc) -> bool:
+  """D-SRT-ARROW applies when the text the document itself presents contains '-->': inside one text node, or across adjacent
+  text nodes of one paragraph (nothing but tags can separate them in the payload)."""
+  if adoc.body is None:
+    return False
+  for p_ in adoc.body.walk():
+    if p_.kind == "P" and "-->" in "".join(n.text or "" for n in p_.walk() if n.kind == "Text"):
+      return True
+  return False
+
+
 def match_cues(exp: Expected, obs_cues, diffs, what, plain_text=None):
   """Aligns expected and observed cues; appends (mech, msg) to diffs; returns list of (expected, observed) pairs."""
   pairs = []
@@ -82,7 +93,7 @@ def match_cues(exp: Expected, obs_cues, diffs, what, plain_text=None):
       # optional cues (only ruby annotation text, or an interval that may round to zero length at a .5 ms tie) count only
       # if the output cue at that position holds exactly their text
       t = plain_text(oc)
-      obs_lines = None if t is None else [ln.split() for ln in t.split("\n") if ln.split()]
+      obs_lines = None if t is None else [Q.toks(ln) for ln in t.split("\n") if Q.toks(ln)]
       if obs_lines is None or obs_lines not in (Q.lines_of(ec["chars"], True), Q.lines_of(ec["chars"], False)):
         continue
     if oc is None:
@@ -107,7 +118,7 @@ def match_cues(exp: Expected, obs_cues, diffs, what, plain_text=None):
 
 def text_diff(ec, obs_text, what):
   """Compares token lines. Returns (mech, msg) or None, and whether optional (ruby annotation) chars were written."""
-  obs_lines = [ln.split() for ln in obs_text.split("\n") if ln.split()]
+  obs_lines = [Q.toks(ln) for ln in obs_text.split("\n") if Q.toks(ln)]
   for with_opt in (False, True):
     if Q.lines_of(ec["chars"], with_opt) == obs_lines:
       return None, with_opt
@@ -265,7 +276,7 @@ def check_doc(ctx, doc, payload, props, classes=(), note_nontrivial=True):
       ctx.count("grammar-rejected")
       if "C07" in props:
         fid = None
-        if fmt == "srt" and e.mech == "arrow-in-payload" and any("-->" in (n.text or "") for n in (adoc.body.walk() if adoc.body else []) if n.kind == "Text"):
+        if fmt == "srt" and e.mech == "arrow-in-payload" and source_has_arrow(adoc):
           fid = "D-SRT-ARROW"
         ctx.violation(f"grammar:{fmt}:{e.mech}", f"{what}: {e}", rp, finding=fid)
       continue
